@@ -55,3 +55,9 @@ claim("C17",
       "Decides that every reflect.Value built for a registered Go parameter is converted to the parameter's type (so no signature of the supported kinds or of named types makes reflect.Call panic), that unsupported parameter kinds end in a catchable error, that numeric result kinds stay numeric, and that integer narrowing in the generic argument converters is range-checked with an error arm. The converted values themselves, float representability and struct/method registration semantics are not decided.",
       "reflect.Value.Call assignability rule; Go conversion semantics; float-source conversions are treated as ordinary coercion and not judged",
       "DESIGN.md §2 C17")
+
+claim("C19",
+      "alias/effect analysis of ClassGeneric's methods (values derived from the shared class declaration must not be stored into or receive receiver-mutating calls); freshness check of the type-argument map; constant-predicate check",
+      "Decides the sharing discipline that 'Box<int> never changes what Box<string> accepts' depends on: methods of ClassGeneric are read-only with respect to the shared declaration, each instantiation owns its type-argument map built from its own arguments, and the generic type predicate is not constant (listed as a finding). Acceptance of a particular value is not decided.",
+      "method names with a receiver-mutating implementation in node/data are computed on every run; struct copies by value are private; pointer fields inside a copied struct are not followed",
+      "DESIGN.md §2 C19")
